@@ -103,7 +103,7 @@ def set_of(ctx, name, t0):
     out = set()
     unknown = []
     for vn in t0.variants:
-        v = eval_variant_pred(f["body"], pid, EXPR + "::" + vn)
+        v = eval_variant_pred(f["body"], pid, EXPR + "::" + vn, get_fn=lambda path: ctx.fn_opt("patronus", path))
         if v is None:
             unknown.append(vn)
         elif v:
@@ -1006,6 +1006,40 @@ def identifiers(ctx, c):
                             accept = ("and", accept, ("not", ("and", ("atom", "FIRST"), g_)))
                             continue
                     raise bp.Opaque(arm["body"], "slice pattern on the identifier's bytes")
+            # a test of the first character before the `all`: `match id.chars().next() { None => return false, Some(c) if G(c) => return false, Some(_) => {} }`
+            for mm in ix.nodes:
+                if mm.get("k") != "match" or contains(per_char[1], mm) or not ix.precedes(mm, per_char[2]):
+                    continue
+                sb_, sms_ = chain(mm["scrut"])
+                if not (is_local(sb_, p_id) and [m_[0] for m_ in sms_] in (["chars", "next"], ["bytes", "next"], ["as_bytes", "first"], ["as_bytes", "iter", "next"])):
+                    continue
+                def rejects(body_):
+                    rv_ = [x for x in walk(body_) if x.get("k") == "return"]
+                    return norm_._diverges(body_) and len(rv_) == 1 and "e" in rv_[0] and peel(rv_[0]["e"]).get("v") is False
+                def passes(body_):
+                    b_ = peel(body_)
+                    return b_.get("k") in ("blockexpr", "tuple") and not [x for x in walk(b_) if x.get("k") in ("return", "mcall", "call", "assign")]
+                for arm in mm["arms"]:
+                    pt = arm["pat"]
+                    while pt.get("k") in ("pref", "pderef"):
+                        pt = pt["pat"]
+                    is_none = pt.get("k") in ("pvariant", "pconst", "ppath") and pt.get("path", "").endswith("Option::None")
+                    is_some = pt.get("k") == "pvariant" and pt.get("path", "").endswith("Option::Some") and len(pt.get("subs", [])) == 1
+                    if is_none and "guard" not in arm and rejects(arm["body"]):
+                        slice_empty_rejected = True
+                        continue
+                    if is_some and rejects(arm["body"]):
+                        fb = pat_bindings(pt["subs"][0])
+                        if len(fb) == 1:
+                            char_ids.add(fb[0][1])
+                        elif fb or "guard" in arm:
+                            raise bp.Opaque(arm["body"], "pattern on the first character")
+                        g_ = bp.extract(arm["guard"], {}, defs, None, 0, None, atom_fn) if "guard" in arm else ("const", True)
+                        accept = ("and", accept, ("not", ("and", ("atom", "FIRST"), g_)))
+                        continue
+                    if (is_some or is_none or pt.get("k") in ("pwild", "pbind")) and "guard" not in arm and passes(arm["body"]):
+                        continue
+                    raise bp.Opaque(arm["body"], "arm of the test of the first character")
     except bp.Opaque as ex:
         accept = None
         why = "UNRECOGNISED (fail closed): the per-character test contains `%s` (%s)" % (show(ex.node)[:60], ex.why)
